@@ -811,6 +811,28 @@ class Models:
                 return [(st, ("enum", v[1], v[2], v[3]))]
             return [(st, ("enum", "Result", "Err", (UNIT,)))]
 
+        # ---- core::mem::replace(&mut inp.errors.alt, v)  ==  { let old = slot.take(); slot = v; old }
+        if name == "replace" and (f.get("path") or "").endswith("mem::replace") and len(vals) == 2:
+            tgt = vals[0]
+            if isinstance(tgt, tuple) and tgt[0] == "slotref":
+                i = st.inps[tgt[1]]
+                v = ("optalt", i.tok, i.some, ("take",))
+                i.tok, i.some = False, "N"
+                st.ev("take_alt", describe(v), line)
+                fr.write_slot(tgt[1], vals[1], line)
+                return [(st, v)]
+            if isinstance(tgt, tuple) and tgt[0] == "ref":
+                v = fr.read_lv(tgt[1])
+                fr.write_lv(tgt[1], vals[1], line)
+                return [(st, v)]
+        if name == "take" and (f.get("path") or "").endswith("mem::take") and len(vals) == 1:
+            tgt = vals[0]
+            if isinstance(tgt, tuple) and tgt[0] == "slotref":
+                i = st.inps[tgt[1]]
+                v = ("optalt", i.tok, i.some, ("take",))
+                i.tok, i.some = False, "N"
+                st.ev("take_alt", describe(v), line)
+                return [(st, v)]
         # ---- Option<Located> / generic Option
         if is_opt and name == "take":
             tgt = vals[0]
@@ -1068,6 +1090,7 @@ class Models:
                     cb = self.local_body_of(f)
                     if cb is not None and fr.depth < 4 and cb is not fr.body and cb is not getattr(self.I, "cur_root", None):
                         self.I.stats["helpers_inlined"] = self.I.stats.get("helpers_inlined", 0) + 1
+                        self.I.__dict__.setdefault("inlined_helpers", set()).add(cb["key"])
                         return self.I.run_body(cb, list(vals), fr.st, fr.depth + 1)
                     raise AnalysisError("unmodelled callee %s receives the parser input (unknown effect) in %s line %s"
                                         % (path, fr.body["uname"], line))
